@@ -123,7 +123,9 @@ def props_theorems(pid):
 
 
 def lean_build(ctx, pid, clean=False):
-    targets = ["Secp.Props." + pid, "secpdriver"]
+    # layers: the limb-kernel theorem files this property's value-level model stands on (C05 field, C06 scalar);
+    # they are regenerated-kernel theorems, so a changed kernel fails every property that computes through it
+    targets = ["Secp.Props." + pid] + ["Secp.Props." + l for l in PROPS[pid].get("layers", []) if l != pid] + ["secpdriver"]
     with Lock("lake.lock"):
         if clean:
             # force re-elaboration of the property module and what it proves with
@@ -418,6 +420,19 @@ def run_check(pid, tier):
                         violations.append((r, i))
                 if violations:
                     break
+            if not static_ok and not violations:
+                # the broken obligation may sit in a kernel layer: search with the layers' generators too
+                for lp in cfg.get("layers", []):
+                    r, m2 = run_correspondence(ctx, lp, tier, seed, budget=4, outname="search-" + lp)
+                    if r is None:
+                        continue
+                    bad = sorted(set(r["impl_ne_spec"]) | set(r["impl_ne_model"]))
+                    log("[%s] layer %s search   ops=%d failing=%d" % (pid, lp, r["n"], len(bad)))
+                    for i in bad:
+                        if not known_match(lp, r["ops"][i]):
+                            violations.append((r, i))
+                    if violations:
+                        break
         else:
             broken.append("driver unavailable")
     if ctx.get("harness_bin") and os.path.exists(ctx["harness_bin"]):
